@@ -13,10 +13,12 @@ being abstract (`NumOps ν`, no laws) — every `Int` that `NumOps.toInt` can re
 Tie to the code: `Generated.Members` (regenerated from /repo on every run) lists every member name of every
 built-in type, the library registrations, the predefined names, the class definitions of pkg/common, every
 `Validate*Params` call with its patterns, the `return nil, nil` sites and the shape of the `golang:` cast;
-`members_all_modelled` fails when the code gains a member the model does not dispatch on.  The sweep
+`members_all_modelled` / `members_all_answered` fail when the code gains a member the model does not dispatch on or
+does not answer.  The sweep
 (tools/props/c10.py, harness op `value`) runs the full product on the real code and compares with the model.
 -/
 import ZnVerif.Proofs.BuiltinMembers
+import ZnVerif.Proofs.TextTotal
 import ZnVerif.Proofs.Validate
 import ZnVerif.Generated.Members
 set_option linter.unusedSectionVars false
@@ -95,6 +97,55 @@ theorem reduceLHS_total (kind : Nat) (root v : Addr) (name : String) (idx : Int)
     (hr : root < s.heap.size) (hv : v < s.heap.size) : GoodOutcomeU s (reduceLHS (kind, root, name, idx) v s) :=
   goodU_of_post (post_reduceLHS kind name idx hs hr hv)
 
+/-! ## the text methods -/
+
+open ZnVerif.Proofs.TextTotal in
+/-- `text_methods_total`: a text method — any name at all — applied to a text receiver and ANY argument list (wrong types,
+    wrong counts, every `Int` that `NumOps.toInt` can return for the positions of 取样) ends, inside the fragment the model
+    covers (`TextFragment`), with a value that is the address of a cell or with a Zn error (MethodNotFound 46, a parameter
+    count / type error 53 / 82, or the exception signal of 取样 / 转换数值): never a panic — in particular the slice
+    `ss[startIdx-1 : endIdx]` of `strExecSlice` is never out of range —, never `unmodelled`, never out of fuel; the heap
+    stays well-formed -/
+theorem text_methods_total (n : Nat) (a : Addr) (name : String) (vals : List Addr) (s : VM ν) (t : String)
+    (hs : WfHeap s) (hargs : ArgsIn s a vals) (ht : s.heap[a]? = some (.str t)) (hf : TextFragment t name) :
+    ((∃ r, (builtinMethod n a name vals s).1 = .ok r ∧ r < (builtinMethod n a name vals s).2.heap.size) ∨
+     (∃ e, (builtinMethod n a name vals s).1 = .err e)) ∧ WfHeap (builtinMethod n a name vals s).2 := by
+  have g := builtin_total n a name vals s hs hargs
+  have d := ends_text n a name vals t s ht hf
+  refine ⟨?_, g.2.1⟩
+  rcases h : builtinMethod n a name vals s with ⟨r, s'⟩
+  rw [h] at g d
+  cases r with
+  | ok r => exact .inl ⟨r, rfl, g.2.2.2 r rfl⟩
+  | err e => exact .inr ⟨e, rfl⟩
+  | panic => exact absurd rfl g.1
+  | fuel => exact d.elim
+  | unmodelled => exact d.elim
+
+open ZnVerif.Proofs.TextTotal in
+/-- … and the fragment is exact: outside it the model says `notModelled` (it never guesses a value) -/
+theorem text_methods_outside_fragment (n : Nat) (a : Addr) (vals : List Addr) (s : VM ν) (t : String)
+    (ht : s.heap[a]? = some (.str t)) :
+    (TextOps.toLower (textBytes t) = none → (builtinMethod n a "转小写-英文" vals s).1 = .unmodelled) ∧
+    (TextOps.toUpper (textBytes t) = none → (builtinMethod n a "转大写-英文" vals s).1 = .unmodelled) ∧
+    (TextOps.atofClass (TextOps.atoiRewrite (textBytes t)) = .special →
+      (builtinMethod n a "转换数值" vals s).1 = .unmodelled) := by
+  refine ⟨fun h => ?_, fun h => ?_, fun h => ?_⟩
+  · unfold builtinMethod
+    rw [bind_apply, getCell_apply ht]
+    simp only [h]
+    rfl
+  · unfold builtinMethod
+    rw [bind_apply, getCell_apply ht]
+    simp only [h]
+    rfl
+  · unfold builtinMethod
+    rw [bind_apply, getCell_apply ht]
+    simp only []
+    rw [bind_apply, setCell_apply _ (lt_size_of_get ht)]
+    simp only [h]
+    rfl
+
 /-- helpers the members call, for completeness: display (`String()`), equality, copy -/
 theorem display_total (n : Nat) (a : Addr) (s : VM ν) (hs : WfHeap s) (ha : a < s.heap.size) :
     (display n a s).1 ≠ .panic ∧ (display n a s).2 = s := by
@@ -159,6 +210,15 @@ example : (builtinMethod 5 0 "新增" [3, 2] s1).1 = .err (.rt 40) := by rfl
 example : (builtinMethod 5 0 "新增" [3, 2] s1).1 ≠ .panic := builtin_never_panics 5 0 "新增" [3, 2] s1 s1_wf ⟨by decide, by decide⟩
 /-- without the guard `insertArrayValue` is the Go slice panic: the guard is what the theorem rests on -/
 example : insertArrayValue [2, 2, 2] (-10) 3 = .panic := by rfl
+/-- the text methods on the text “文” (address 3): a wrong argument count is error 53, a wrong type error 82, 取样 beyond the
+    end is the exception signal, 转换数值 of a non-numeral too — and all of it is inside the fragment -/
+example : Proofs.TextTotal.TextFragment "文" "转换数值" := by
+  refine ⟨fun h => absurd h (by decide), fun h => absurd h (by decide), fun _ => (by decide)⟩
+example : (builtinMethod 5 3 "替换" [3] s1).1 = .err (.rt 53) := by rfl
+example : (builtinMethod 5 3 "匹配" [2] s1).1 = .err (.rt 82) := by rfl
+example : (builtinMethod 5 3 "取样" [2, 2] s1).1 = .err (.sigExc 6) := by rfl
+example : (builtinMethod 5 3 "转换数值" [] s1).1 = .err (.sigExc 6) := by rfl
+example : (builtinMethod 5 3 "去除空格" [0, 1] s1).1 = .ok 6 := by rfl
 end examples
 
 /-! ## the member tables of the code are the names the model dispatches on -/
@@ -190,11 +250,15 @@ def dispatch (m : String × String × String) : Disp :=
     else if m.2.1 == "s" then classify 45 (setProperty a m.2.2 5 probeState).1
     else classify 46 (builtinMethod 3 a m.2.2 [] probeState).1
 
-/-- members the model dispatches on but answers `notModelled` for: the text methods that wrap Go's `strings` /
-    `strconv` / `fmt` (swept on the real code only) -/
-def unmodelledMembers : List (String × String × String) := [
-  ("string", "m", "替换"), ("string", "m", "分隔"), ("string", "m", "取样"), ("string", "m", "去除空格"),
-  ("string", "m", "转小写-英文"), ("string", "m", "转大写-英文"), ("string", "m", "格式化"), ("string", "m", "转换数值")]
+/-- members the model dispatches on but answers `notModelled` for on every receiver: none is left (the text methods that
+    wrap Go's `strings` / `strconv` packages are modelled in Model/TextMethods.lean) -/
+def unmodelledMembers : List (String × String × String) := []
+
+/-- members the model answers `notModelled` for on SOME receivers only — outside `TextFragment`: case mapping of a text
+    holding a letter that is neither English nor caseless, 转换数值 of a spelling `strconv.ParseFloat` accepts beyond plain
+    decimal numerals (inf / nan, hexadecimal, underscores) or of a numeral that may be out of range -/
+def partlyModelledMembers : List (String × String × String) := [
+  ("string", "m", "转小写-英文"), ("string", "m", "转大写-英文"), ("string", "m", "转换数值")]
 
 /-- library functions, the random generator and the HTTP classes have no model at all (swept on the real code only) -/
 def unmodelledLibrary : List (String × String × String) := [
@@ -209,6 +273,11 @@ theorem members_all_modelled : ∀ m ∈ Members.members, dispatch m ≠ .notFou
 set_option maxRecDepth 100000 in
 /-- … and the model answers `notModelled` exactly for the listed ones: modelled ∪ unmodelledMembers is complete -/
 theorem unmodelled_members_exact : ∀ m ∈ Members.members, (dispatch m = .unmodelled ↔ m ∈ unmodelledMembers) := by decide
+
+set_option maxRecDepth 100000 in
+/-- stronger: applied to the probe value of its type without arguments, every member of the code is ANSWERED by the model
+    (a value, or an error other than "no such member") — the text methods included -/
+theorem members_all_answered : ∀ m ∈ Members.members, dispatch m = .found := by decide
 
 /-- every value type of pkg/value is a type the model has cells for (GoValue has no member and no literal) -/
 theorem types_all_modelled : ∀ t ∈ Members.types, (probeAddr t).isSome = true ∨ t = "govalue" := by decide
